@@ -166,6 +166,16 @@ func runC12(c *an.Ctx) {
 	// LIVE
 	liveRule(c, roots)
 
+	// LOCK-1/2/3: a leaked or re-acquired mutex, or a lock-order cycle, wedges every later request (rules shared with C13)
+	var httpRoots []*ssa.Function
+	for _, r := range roots {
+		if r.Kind == "http" {
+			httpRoots = append(httpRoots, r.Fn)
+		}
+	}
+	lockBalance(c, p.FuncsIn("server"), p.SyncReach(httpRoots...), "C12")
+	lockOrder(c, p.LockOrderEdges(p.SrcFuncs()), [][2]string{{"GCAServer.mu", "AuthorizedServers.mu"}})
+
 	// LOCK-5
 	for _, lock := range []string{"GCAServer.mu", "AuthorizedServers.mu"} {
 		bl := p.BlockingUnderLock(p.FuncsIn("server"), lock)
